@@ -1,8 +1,373 @@
-"""Ghost model of the asyncio primitives used by goodwe.protocol (trusted contracts T4, DESIGN 2.6/3)."""
+"""Ghost model of the asyncio primitives used by goodwe.protocol — the trusted contracts T4 of DESIGN section 3,
+written from the CPython 3.12 sources of asyncio.futures, asyncio.locks, asyncio.base_events and
+asyncio.selector_events.  Nothing here is verified; every evidence file that used it says so.
+
+Future      PENDING / RESULT / EXCEPTION / CANCELLED; set_result / set_exception raise InvalidStateError unless
+            PENDING; cancel() is a no-op returning False when done; awaiting suspends until done.
+Lock        release() raises RuntimeError if not locked and frees the lock at once; another task can take it only
+            at a suspension point of the current one; acquire() suspends.
+call_later  returns a handle; the callback runs once, not before the delay, unless the handle is cancelled first.
+call_soon   the callback runs once in a later iteration of the loop.
+transports  sendto / write transmit (or report a failure later through error_received); close() makes is_closing()
+            true; create_datagram_endpoint / create_connection return a fresh open transport or raise OSError.
+wait_for    runs the awaitable; raises TimeoutError after the delay, cancelling it.
+"""
 from __future__ import annotations
 
-from .aio import NOT_MODELLED
+import asyncio
+
+import z3
+
+from .aio import NOT_MODELLED, Coro, ContractCoro
+from .interp import PyRaise
+from .sym import SInt, SBool, Unsupported, mk_bool, mk_int, iterm, bterm
+
+PENDING, RESULT, EXCEPTION, CANCELLED = 0, 1, 2, 3
+
+
+class ProtoGhost:
+    """ghost state of one protocol object under verification"""
+
+    def __init__(self):
+        self.loop = GLoop("current")
+        self.proto = None
+        self.tx = 0                 # transmissions (int or SInt)
+        self.tx_log = []            # payloads, in order
+        self.armed = 0              # armed timeouts: timers + call_soon callbacks (int or SInt)
+        self.open = []              # transports created for this object and not yet closed
+        self.events = []            # ('set_result', fut, value) ('set_exception', fut, exc) ('cancel', fut) ...
+        self.validated = []         # (data, outcome) of every validator call
+        self.me = 1                 # id of the current task
+        self.multi_caller = False
+        self.delays = []            # (site, delay value, callback)
+        self.suspensions = []       # hooks run at every suspension point: f(ex, what)
+        self.lock_events = []
+
+
+def pg(ex):
+    if ex.ghost is None or not isinstance(ex.ghost, ProtoGhost):
+        ex.ghost = ProtoGhost()
+    return ex.ghost
+
+
+def _t(v):
+    return iterm(v)
+
+
+def _inc(v, d):
+    if isinstance(v, int):
+        return v + d
+    return mk_int(iterm(v) + d)
+
+
+class GLoop:
+    _pyvc_model = True
+
+    def __init__(self, name):
+        self.name = name
+
+    def create_future(self):
+        from . import interp
+        ex = interp.current()
+        f = GFuture(PENDING)
+        ex.new_object(f)
+        return f
+
+    def call_later(self, delay, cb, *args):
+        from . import interp
+        ex = interp.current()
+        g = pg(ex)
+        h = GTimer(True, delay, cb)
+        ex.new_object(h)
+        g.armed = _inc(g.armed, 1)
+        g.delays.append(("call_later", delay, cb))
+        g.events.append(("call_later", delay, cb))
+        return h
+
+    def call_soon(self, cb, *args):
+        from . import interp
+        ex = interp.current()
+        g = pg(ex)
+        g.armed = _inc(g.armed, 1)
+        g.events.append(("call_soon", cb))
+        return ex.new_object(GTimer(True, 0, cb))
+
+    def create_datagram_endpoint(self, factory, remote_addr=None, **kw):
+        return GConnect(self, factory, "udp")
+
+    def create_connection(self, factory, host=None, port=None, **kw):
+        return GConnect(self, factory, "tcp")
+
+
+class GConnect:
+    """awaitable returned by create_datagram_endpoint / create_connection"""
+    _pyvc_model = True
+
+    def __init__(self, loop, factory, kind):
+        self.loop = loop
+        self.factory = factory
+        self.kind = kind
+
+    def _pyvc_await(self, ex):
+        g = pg(ex)
+        suspend(ex, "connect")
+        k = ex.choose(3 if self.kind == "tcp" else 2, tag="connect")
+        if k == 1:
+            raise PyRaise(OSError("connect failed"))
+        if k == 2:
+            raise PyRaise(ConnectionRefusedError("connection refused"))
+        t = GTransport(self.kind)
+        ex.new_object(t)
+        g.open.append(t)
+        proto = ex.call(self.factory, [], {})
+        ex.call(ex.getattr(proto, "connection_made"), [t], {})
+        g.events.append(("connected", t))
+        return (t, proto)
+
+
+class GTransport:
+    _pyvc_model = True
+
+    def __init__(self, kind, closing=False):
+        self.kind = kind
+        self.closing = closing
+
+    def is_closing(self):
+        return self.closing
+
+    def close(self):
+        from . import interp
+        ex = interp.current()
+        g = pg(ex)
+        self.closing = True
+        g.open = [t for t in g.open if t is not self]
+        g.events.append(("close", self))
+
+    def _send(self, payload):
+        from . import interp
+        ex = interp.current()
+        g = pg(ex)
+        g.tx = _inc(g.tx, 1)
+        g.tx_log.append(payload)
+        g.events.append(("tx", payload))
+
+    def sendto(self, payload, addr=None):
+        self._send(payload)
+
+    def write(self, payload):
+        self._send(payload)
+
+    def get_extra_info(self, name, default=None):
+        return default
+
+    def _pyvc_truth(self, ex):
+        return True
+
+
+class GTimer:
+    _pyvc_model = True
+
+    def __init__(self, armed, delay, cb, present=True):
+        self.armed = armed
+        self.delay = delay
+        self.cb = cb
+        self.present = present        # False/SBool: stands for "None or a handle" without forking until tested
+
+    def cancel(self):
+        from . import interp
+        ex = interp.current()
+        g = pg(ex)
+        a = self.armed
+        if isinstance(a, SBool):
+            a = ex.branch(a.t, tag="timer.armed")
+        if a:
+            g.armed = _inc(g.armed, -1)
+        self.armed = False
+        g.events.append(("timer.cancel", self))
+
+    def _pyvc_truth(self, ex):
+        return self.present
+
+
+class GFuture:
+    _pyvc_model = True
+
+    def __init__(self, state):
+        self.state = state          # int or SInt in 0..3
+        self.value = None
+        self.exc = None
+
+    def _is(self, ex, st):
+        s = self.state
+        if isinstance(s, int):
+            return s == st
+        return ex.branch(_t(s) == st, tag=f"future.state=={st}")
+
+    def _pending(self, ex):
+        return self._is(ex, PENDING)
+
+    def done(self):
+        s = self.state
+        if isinstance(s, int):
+            return s != PENDING
+        return mk_bool(_t(s) != PENDING)
+
+    def cancelled(self):
+        s = self.state
+        if isinstance(s, int):
+            return s == CANCELLED
+        return mk_bool(_t(s) == CANCELLED)
+
+    def set_result(self, v):
+        from . import interp
+        ex = interp.current()
+        if not self._pending(ex):
+            raise PyRaise(asyncio.InvalidStateError("invalid state"))
+        self.state = RESULT
+        self.value = v
+        pg(ex).events.append(("set_result", self, v))
+
+    def set_exception(self, e):
+        from . import interp
+        ex = interp.current()
+        if not self._pending(ex):
+            raise PyRaise(asyncio.InvalidStateError("invalid state"))
+        self.state = EXCEPTION
+        self.exc = e
+        pg(ex).events.append(("set_exception", self, e))
+
+    def cancel(self, msg=None):
+        from . import interp
+        ex = interp.current()
+        if not self._pending(ex):
+            return False
+        self.state = CANCELLED
+        pg(ex).events.append(("cancel", self))
+        return True
+
+    def result(self):
+        from . import interp
+        ex = interp.current()
+        if self._is(ex, RESULT):
+            return self.value
+        if self._is(ex, EXCEPTION):
+            e = self.exc
+            if callable(e) and not isinstance(e, type) and not isinstance(e, BaseException):
+                e = e(ex)             # chosen when it is raised
+            if isinstance(e, type):
+                e = e()
+            raise PyRaise(e)
+        if self._is(ex, CANCELLED):
+            raise PyRaise(asyncio.CancelledError())
+        raise PyRaise(asyncio.InvalidStateError("Result is not ready."))
+
+    def _pyvc_truth(self, ex):
+        return True
+
+    def _pyvc_await(self, ex):
+        """await fut: suspension point, then the future is done (or the awaiting task was cancelled, which cancels
+        the future it waits for)"""
+        suspend(ex, ("future", self))
+        if self._is(ex, PENDING):
+            # the only way to resume on a pending future is cancellation of the task: asyncio cancels the future
+            self.state = CANCELLED
+            raise PyRaise(asyncio.CancelledError())
+        return self.result()
+
+
+class MaybeBytes:
+    """`None or some bytes` that is never inspected by the segment under verification (truth value only)"""
+    _pyvc_model = True
+
+    def __init__(self, present):
+        self.present = present
+
+    def _pyvc_truth(self, ex):
+        return self.present
+
+
+class GLock:
+    _pyvc_model = True
+
+    def __init__(self, locked=False, owner=0):
+        self.is_locked = locked      # bool or SBool
+        self.owner = owner
+
+    def locked(self):
+        return self.is_locked
+
+    def acquire(self):
+        return GAcquire(self)
+
+    def release(self):
+        from . import interp
+        ex = interp.current()
+        g = pg(ex)
+        l = self.is_locked
+        if isinstance(l, SBool):
+            l = ex.branch(l.t, tag="lock.locked")
+        if not l:
+            raise PyRaise(RuntimeError("Lock is not acquired."))
+        g.lock_events.append(("release", self, self.owner))
+        self.is_locked = False
+        self.owner = 0
+
+    def _pyvc_truth(self, ex):
+        return True
+
+
+class GAcquire:
+    _pyvc_model = True
+
+    def __init__(self, lock):
+        self.lock = lock
+
+    def _pyvc_await(self, ex):
+        g = pg(ex)
+        l = self.lock.is_locked
+        free = (l is False) or (not isinstance(l, bool) and ex.known(z3.Not(bterm(l))))
+        if not free or g.multi_caller:
+            # T4: acquire() on a free lock with no waiters completes without suspending
+            suspend(ex, ("lock", self.lock))
+        # resumes when the lock is free (T4: only a holder releases; waiters are served in turn)
+        self.lock.is_locked = True
+        self.lock.owner = g.me
+        g.lock_events.append(("acquire", self.lock, g.me))
+        return True
+
+
+class GWaitFor:
+    _pyvc_model = True
+
+    def __init__(self, aw, timeout):
+        self.aw = aw
+        self.timeout = timeout
+
+    def _pyvc_await(self, ex):
+        from . import aio
+        g = pg(ex)
+        g.delays.append(("wait_for", self.timeout, None))
+        if ex.choose(2, tag="wait_for") == 1:
+            # the inner awaitable is cancelled at a suspension point before it had an effect that survives
+            raise PyRaise(asyncio.TimeoutError())
+        return aio.await_value(ex, self.aw)
+
+
+def suspend(ex, what):
+    """a suspension point of the current task: callbacks (and, with several callers, other tasks) run here"""
+    g = pg(ex)
+    for hook in g.suspensions:
+        hook(ex, what)
 
 
 def maybe_model(ex, fn, args, kw):
+    if fn is asyncio.get_running_loop or fn is asyncio.get_event_loop:
+        return pg(ex).loop
+    if fn is asyncio.Lock:
+        return ex.new_object(GLock(False, 0))
+    if fn is asyncio.wait_for:
+        timeout = kw.get("timeout", args[1] if len(args) > 1 else None)
+        return GWaitFor(args[0], timeout)
+    if fn is asyncio.sleep:
+        raise Unsupported("asyncio.sleep")
     return NOT_MODELLED
